@@ -123,11 +123,78 @@ func main() {
 	for _, u := range units {
 		runUnit(w, u, tmp, quickT, slowT, *verbose)
 	}
+	if *unitF == "" || strings.Contains("lemma", *unitF) {
+		units = append(units, runLemmas(*prop, *verif, quickT, slowT, *verbose)...)
+	}
 	code := report(w, units, *prop, *tier, *verif, t0, loadMs, *noEvid, *verbose)
 	if !*keep {
 		os.RemoveAll(tmp)
 	}
 	os.Exit(code)
+}
+
+// runLemmas: pure-mathematics lemmas of a property, kept as SMT-LIB files under /verif/lemmas/<prop>/*.smt2.
+// They connect contracts proved on the code (e.g. "this function returns exactly this concatenation") with the
+// property statement (e.g. "these concatenations have the same Redis hash tag"), in a theory the code-level
+// encoding does not use (SMT-LIB strings). Header lines:  ; name: ...   ; solver: cvc5 --strings-exp   ; about: ...
+// Every file must be `unsat`.
+func runLemmas(prop, verif string, quickT, slowT int, verbose bool) []*unitRun {
+	files, _ := filepath.Glob(filepath.Join(verif, "lemmas", prop, "*.smt2"))
+	sort.Strings(files)
+	var res []*unitRun
+	for _, f := range files {
+		data, err := os.ReadFile(f)
+		if err != nil {
+			continue
+		}
+		name := strings.TrimSuffix(filepath.Base(f), ".smt2")
+		solverLine := "cvc5 --strings-exp"
+		about := ""
+		for _, l := range strings.Split(string(data), "\n") {
+			l = strings.TrimSpace(l)
+			if strings.HasPrefix(l, "; solver:") {
+				solverLine = strings.TrimSpace(strings.TrimPrefix(l, "; solver:"))
+			}
+			if strings.HasPrefix(l, "; about:") {
+				about = strings.TrimSpace(strings.TrimPrefix(l, "; about:"))
+			}
+		}
+		ob := &Oblig{Unit: ".:lemma:" + name, Name: "lemma", Kind: "lemma", Desc: about, Contractual: true, Props: []string{prop}}
+		args := strings.Fields(solverLine)
+		t0 := time.Now()
+		timeout := slowT
+		if args[0] == "cvc5" {
+			args = append(args, fmt.Sprintf("--tlimit=%d", timeout*1000))
+		} else {
+			args = append(args, fmt.Sprintf("-T:%d", timeout))
+		}
+		args = append(args, f)
+		out, _ := exec.Command(args[0], args[1:]...).CombinedOutput()
+		first := ""
+		for _, l := range strings.Split(string(out), "\n") {
+			if l = strings.TrimSpace(l); l != "" && !strings.HasPrefix(l, "WARNING") {
+				first = l
+				break
+			}
+		}
+		r := &Result{Ob: ob, Backend: args[0], Ms: time.Since(t0).Milliseconds(), Output: string(out), File: f}
+		switch first {
+		case "unsat":
+			r.Status = "proved"
+		case "sat":
+			r.Status = "refuted"
+			r.Model = map[string]string{"solver_model": truncate(string(out), 1500)}
+		default:
+			r.Status = "unknown"
+		}
+		if verbose {
+			fmt.Fprintf(os.Stderr, "  %-9s %-8s %6dms  %s\n", r.Status, r.Backend, r.Ms, ob.Unit)
+		}
+		u := &unitRun{Unit: ob.Unit, Fc: &FuncContract{Name: "lemma:" + name, Props: []string{prop}}, G: &Gen{}, Results: []*Result{r}}
+		u.G.assumptions = []string{"lemma " + name + " is stated over SMT-LIB strings; its premises (the key layouts) are what the contracts on the code prove; the correspondence is by reading"}
+		res = append(res, u)
+	}
+	return res
 }
 
 func contains(xs []string, x string) bool {
